@@ -241,9 +241,10 @@ Definition expected (cls : N) (name : list N) : outcome :=
   | 4 => if single_token 0 name name then OName name else OErr
   | _ =>
       if single_token 0 name name then
-        match region_of_expression name with
-        | Some r => if bytes_eqb r (region_of_declare name) then OName name else OErr
-        | None => OOther
+        match expression_identifier name with
+        | EAddress r => if bytes_eqb r (region_of_declare name) then OName name else OErr
+        | EFunction _ => OErr        (* a function name without its argument does not parse *)
+        | _ => OOther                (* the use denotes a constant, not the declared region *)
         end
       else OErr
   end.
@@ -285,7 +286,14 @@ Definition case_verdict (c : case) : N :=
       end
   | PosC cls name o =>
       if negb (chk_name name o) then 2
-      else if outcome_eqb (expected cls name) o then 0 else 1
+      else if outcome_eqb (expected cls name) o then 0
+      else
+        (* a reserved word in a name position is not a name: the text is either rejected or is a
+           different instruction altogether (e.g. a gate position holding the word MEASURE) *)
+        match expected cls name, o with
+        | OErr, OOther => if reserved name then 0 else 1
+        | _, _ => 1
+        end
   end.
 
 Fixpoint failing_from (i : N) (cs : list case) : list (N * N) :=
